@@ -51,7 +51,9 @@ Definition check_reload (impl : fixes) (c : rcase) : verdict :=
   {| v_corr := reload_eqb (on_changed (rc_comp c) impl (rc_pre c) (rc_input c)) (rc_obs c);
      v_prop := reload_prop (rc_pre c) (rc_obs c);
      v_guards := guards [(1%Z, guard_F1 (rc_comp c) impl (rc_input c));
-                         (2%Z, guard_F2 (rc_comp c) impl (rc_input c));
+                         (* also where only the repair of F2 (createEntry rejects the size) would change the outcome *)
+                         (2%Z, guard_F2 (rc_comp c) impl (rc_input c) ||
+                               match ks_of (rc_comp c) impl (rc_input c) with Ok es => existsb unsupported es | _ => false end);
                          (5%Z, guard_F5 (rc_comp c) impl (rc_input c));
                          (6%Z, guard_F6 (rc_comp c) impl (rc_input c))] |}.
 
@@ -96,7 +98,9 @@ Definition check_ks (impl : fixes) (c : kcase) : verdict :=
                | Err => true
                | Panic _ => false
                end;
-     v_guards := guards [(2%Z, match create_key_store impl (kc_chain_ok c) (kc_blocks c) with
+     v_guards := guards [(1%Z, match create_key_store impl (kc_chain_ok c) (kc_blocks c) with
+                               | Ok [] => true | _ => false end);   (* the root of F1: an empty store without error *)
+                         (2%Z, match create_key_store impl (kc_chain_ok c) (kc_blocks c) with
                                | Ok es => existsb unsupported es | _ => false end);
                          (6%Z, match create_key_store impl (kc_chain_ok c) (kc_blocks c) with
                                | Panic SChainLoop => true | _ => false end)] |}.
